@@ -30,6 +30,8 @@ EXPLANATION += " Also decided: every entry point exits clean on the connection a
 
 def run(ctx):
     model = ctx.model
+    shared.r_collation(ctx, "R06.exact", ('nameplates', 'mailboxes', 'messages'),
+                       'two applications whose ids differ only in case share their rows')
     shared.r_durable(ctx, "R06.durable", ("chan",),
                      "whether this app's change survives a restart depends on whether some other app's command commits the shared connection afterwards")
     sc = scopemod.get(model)
@@ -113,6 +115,24 @@ def run(ctx):
                         key = x["key"]
                 ok = key is not None and key[0] == "sub" and is_client_value(key) and \
                     is_const(key[2]) and key[2][1] == "appid"
+                # the app of a connection never changes: it is assigned only on
+                # paths where it is known to be unset
+                from ..e3 import pc_truth as _pct
+                was = None
+                for tt, vv in _pct(e["pc"]).items():
+                    if tt[0] == "attr" and tt[1] == e["obj"] and tt[2] == e["attr"]:
+                        was = vv
+                    if tt[0] == "obj" and isinstance(tt[2], tuple) and tt[2][:1] == ("held",) \
+                            and tt[2][-1] == e["attr"] and tt[2][1] == e["obj"][2]:
+                        was = vv
+                    if tt[0] == "isnone" and tt[1][0] == "attr" and tt[1][1] == e["obj"] \
+                            and tt[1][2] == e["attr"]:
+                        was = not vv
+                ctx.ob("R06.bind", "%s: %s is assigned only while unset" % (h, e["attr"]),
+                       was is False, e, "" if was is False else
+                       "a connection that is already bound to an app can be bound to another "
+                       "one: it keeps the mailbox, subscription and names of the first app "
+                       "and acts on them under the second")
                 ctx.ob("R06.bind", "%s: %s = registry[%s]" % (h, e["attr"],
                                                               show(key)[-30:] if key else "?"),
                        ok, e, "" if ok else "the namespace is not the registry entry of "
